@@ -300,37 +300,20 @@ func waitBounded(check string, done <-chan struct{}) bool {
 	}
 }
 
-func runLog(c LogCase) kit.Verdict {
-	kit.Assume("logged messages carry a non-nil Body and have a martian context (true for every message the proxy hands to a modifier); IDs passed to Stream.LogRequest/LogResponse are at least 8 bytes long")
-	rec := &recorder{yield: c.SlowWriter}
-	var stream *marbl.Stream
-	var mod *marbl.Modifier
-	if c.Modifier {
-		mod = marbl.NewModifier(rec)
-	} else {
-		stream = marbl.NewStream(rec)
-	}
-	conc := "single-message"
-	if len(c.Msgs) >= 2 {
-		conc = "concurrent-messages"
-	}
+// built is one message made ready for logging, with what is expected of it.
+type built struct {
+	req  *http.Request
+	res  *http.Response
+	body *scripted
+	twin *scripted
+	exp  *expectMsg
+}
 
-	// build every message and its context before any goroutine starts
-	type built struct {
-		req  *http.Request
-		res  *http.Response
-		body *scripted
-		twin *scripted
-		exp  *expectMsg
-	}
-	bs := make([]*built, len(c.Msgs))
-	var removes []func()
-	defer func() {
-		for _, rm := range removes {
-			rm()
-		}
-	}()
-	for i, m := range c.Msgs {
+// buildMsgs constructs every message and its martian context (before any
+// goroutine starts). drop is set when random context IDs collide.
+func buildMsgs(msgs []Msg, modifier bool) (bs []*built, removes []func(), drop bool, v kit.Verdict) {
+	bs = make([]*built, len(msgs))
+	for i, m := range msgs {
 		b := &built{body: newScripted(m), twin: newScripted(m), exp: &expectMsg{mt: 1}}
 		var ctx *martian.Context
 		if m.Resp && m.Of >= 0 {
@@ -344,12 +327,12 @@ func runLog(c LogCase) kit.Verdict {
 				b.req, err = buildRequest(m)
 			}
 			if err != nil {
-				return kit.Failf("C19/harness/bad-case", "message %d: %v", i, err)
+				return nil, removes, false, kit.Failf("C19/harness/bad-case", "message %d: %v", i, err)
 			}
 			var rm func()
 			ctx, rm, err = martian.TestContext(b.req, nil, nil)
 			if err != nil {
-				return kit.Failf("C19/harness/test-context", "martian.TestContext: %v", err)
+				return nil, removes, false, kit.Failf("C19/harness/test-context", "martian.TestContext: %v", err)
 			}
 			removes = append(removes, rm)
 		}
@@ -367,24 +350,24 @@ func runLog(c LogCase) kit.Verdict {
 			b.req.Body = b.body
 		}
 		b.exp.headers = expectedHeaders(m, b.req)
-		if m.Resp && m.Of >= 0 && c.Msgs[m.Of].API {
+		if m.Resp && m.Of >= 0 && msgs[m.Of].API {
 			b.exp.headers[":api"] = []string{"true"} // the flag lives on the shared context
 		}
 		if !m.Resp {
-			for j := i + 1; j < len(c.Msgs); j++ {
-				if c.Msgs[j].Resp && c.Msgs[j].Of == i && c.Msgs[j].API {
+			for j := i + 1; j < len(msgs); j++ {
+				if msgs[j].Resp && msgs[j].Of == i && msgs[j].API {
 					b.exp.headers[":api"] = []string{"true"}
 				}
 			}
 		}
-		if c.Modifier {
+		if modifier {
 			b.exp.id8 = ctx.ID()[:8]
 		} else {
 			b.exp.id8 = m.ID[:8]
 		}
 		bs[i] = b
 	}
-	if c.Modifier {
+	if modifier {
 		// context IDs are random: two messages that are not a pair must differ in
 		// the 8 bytes that reach the wire, otherwise the case says nothing
 		seen := map[string]int{}
@@ -392,50 +375,51 @@ func runLog(c LogCase) kit.Verdict {
 			key := fmt.Sprintf("%d/%s", b.exp.mt, b.exp.id8)
 			if _, dup := seen[key]; dup {
 				kit.Note("logging", "a case was dropped because two random context IDs shared their first 8 characters")
-				return nil
+				return nil, removes, true, nil
 			}
 			seen[key] = i
 		}
 	}
+	return bs, removes, false, nil
+}
 
-	var (
-		vmu   sync.Mutex
-		fails kit.Verdict
-		wg    sync.WaitGroup
-	)
-	addf := func(sig, format string, args ...interface{}) {
-		vmu.Lock()
-		fails.Addf(sig, format, args...)
-		vmu.Unlock()
-	}
+// failSink collects failures from several goroutines.
+type failSink struct {
+	mu sync.Mutex
+	v  kit.Verdict
+}
+
+func (f *failSink) addf(sig, format string, args ...interface{}) {
+	f.mu.Lock()
+	f.v.Addf(sig, format, args...)
+	f.mu.Unlock()
+}
+
+func (f *failSink) verdict() kit.Verdict {
+	f.mu.Lock()
+	defer f.mu.Unlock()
+	return append(kit.Verdict(nil), f.v...)
+}
+
+// logGroup logs the messages idxs concurrently (one goroutine each, released
+// together), reads their bodies in lockstep with the twins and fills in the
+// expectations. The returned channel is closed when all are done.
+func logGroup(idxs []int, msgs []Msg, bs []*built, doLog func(i int) (io.ReadCloser, error), sink *failSink) <-chan struct{} {
+	var wg sync.WaitGroup
+	addf := sink.addf
 	start := make(chan struct{})
-	for i := range c.Msgs {
+	for _, i := range idxs {
 		wg.Add(1)
 		go func(i int) {
 			defer wg.Done()
-			m, b := c.Msgs[i], bs[i]
+			m, b := msgs[i], bs[i]
 			defer func() {
 				if r := recover(); r != nil {
 					addf("C19/logging/"+mtName(m.Resp)+"/panic", "message %d: logging or reading the body panicked: %v\n%s", i, r, debug.Stack())
 				}
 			}()
 			<-start
-			var wrapped io.ReadCloser
-			var err error
-			switch {
-			case c.Modifier && m.Resp:
-				err = mod.ModifyResponse(b.res)
-				wrapped = b.res.Body
-			case c.Modifier:
-				err = mod.ModifyRequest(b.req)
-				wrapped = b.req.Body
-			case m.Resp:
-				err = stream.LogResponse(m.ID, b.res)
-				wrapped = b.res.Body
-			default:
-				err = stream.LogRequest(m.ID, b.req)
-				wrapped = b.req.Body
-			}
+			wrapped, err := doLog(i)
 			if err != nil {
 				addf("C19/logging/"+mtName(m.Resp)+"/log-call-returned-error", "message %d: logging returned %v", i, err)
 				return
@@ -493,9 +477,158 @@ func runLog(c LogCase) kit.Verdict {
 	close(start)
 	done := make(chan struct{})
 	go func() { wg.Wait(); close(done) }()
-	if !waitBounded("logging", done) {
+	return done
+}
+
+// analyse compares decoded frames, per (type, ID), with the logged messages.
+// root is the signature root ("C19/" for the stream's writer, "C19/subscriber-"
+// for what a websocket subscriber of marbl.Handler received).
+func analyse(root, conc string, frames []pframe, msgs []Msg, bs []*built, ignoreIDs []string) kit.Verdict {
+	var fails kit.Verdict
+	type key struct {
+		mt byte
+		id string
+	}
+	byMsg := map[key][]pframe{}
+	for _, f := range frames {
+		byMsg[key{f.MT, f.ID}] = append(byMsg[key{f.MT, f.ID}], f)
+	}
+	for i, b := range bs {
+		e := b.exp
+		fs := byMsg[key{e.mt, e.id8}]
+		delete(byMsg, key{e.mt, e.id8})
+		got := map[string][]string{}
+		var data []pframe
+		for _, f := range fs {
+			if f.Kind == 1 {
+				got[f.Name] = append(got[f.Name], f.Value)
+			} else {
+				data = append(data, f)
+			}
+		}
+		if ts := got[":timestamp"]; len(ts) == 1 {
+			got[":timestamp"] = []string{""}
+		}
+		if d := diffHeaders(e.headers, got); d != "" {
+			fails.Addf(root+"headers/"+mtName(msgs[i].Resp)+"/header-frames-differ-from-message", "message %d (id %q): %s", i, e.id8, d)
+		}
+		// data frames
+		var cat []byte
+		contiguous := true
+		for k, f := range data {
+			if f.Index != uint32(k) {
+				contiguous = false
+			}
+			cat = append(cat, f.Data...)
+		}
+		if !contiguous {
+			var idx []string
+			for _, f := range data {
+				idx = append(idx, strconv.FormatUint(uint64(f.Index), 10))
+				if len(idx) >= 12 {
+					idx = append(idx, "…")
+					break
+				}
+			}
+			fails.Addf(root+"data/"+e.shape+"/indices-not-contiguous-from-zero", "message %d (id %q): data frame indices in stream order are %s", i, e.id8, strings.Join(idx, ","))
+		}
+		var consumed []byte
+		for _, r := range e.reads {
+			consumed = append(consumed, r.data...)
+		}
+		if !bytes.Equal(cat, consumed) {
+			fails.Addf(root+"data/"+e.shape+"/concatenation-differs-from-bytes-read", "message %d (id %q): %d data frames, %s", i, e.id8, len(data), kit.Diff(consumed, cat))
+		}
+		if len(e.reads) > 0 && len(data) == 0 {
+			fails.Addf(root+"data/"+e.shape+"/no-data-frames", "message %d (id %q): the consumer issued %d reads, the stream has no data frame", i, e.id8, len(e.reads))
+		}
+		if len(data) > 0 {
+			last := data[len(data)-1]
+			if (last.TermRaw == 1) != e.sawEOF || last.TermRaw > 1 {
+				fails.Addf(root+"data/"+e.shape+"/terminal-flag-of-last-frame-wrong", "message %d (id %q): last data frame (index %d) has terminal byte %d, the consumer saw EOF: %v", i, e.id8, last.Index, last.TermRaw, e.sawEOF)
+			}
+			if len(data) == len(e.reads) {
+				for k, f := range data {
+					if (f.TermRaw != 0) != e.reads[k].eof {
+						fails.Addf(root+"data/"+e.shape+"/terminal-flag-differs-from-read-eof", "message %d (id %q): frame %d has terminal byte %d but read %d returned EOF: %v", i, e.id8, k, f.TermRaw, k, e.reads[k].eof)
+						break
+					}
+				}
+			} else if !e.sawEOF {
+				for _, f := range data {
+					if f.TermRaw != 0 {
+						fails.Addf(root+"data/"+e.shape+"/terminal-flag-before-eof", "message %d (id %q): frame %d is terminal, the body never reached EOF", i, e.id8, f.Index)
+						break
+					}
+				}
+			}
+		}
+	}
+	for _, id := range ignoreIDs {
+		delete(byMsg, key{1, id})
+	}
+	if len(byMsg) > 0 {
+		var ks []string
+		for k, fs := range byMsg {
+			ks = append(ks, fmt.Sprintf("type %d id %q (%d frames)", k.mt, k.id, len(fs)))
+		}
+		sort.Strings(ks)
+		fails.Addf(root+"stream/"+conc+"/frames-for-unknown-message", "the stream holds frames that belong to no logged message: %s", strings.Join(ks, "; "))
+	}
+	return fails
+}
+
+func runLog(c LogCase) kit.Verdict {
+	kit.Assume("logged messages carry a non-nil Body and have a martian context (true for every message the proxy hands to a modifier); IDs passed to Stream.LogRequest/LogResponse are at least 8 bytes long")
+	rec := &recorder{yield: c.SlowWriter}
+	var stream *marbl.Stream
+	var mod *marbl.Modifier
+	if c.Modifier {
+		mod = marbl.NewModifier(rec)
+	} else {
+		stream = marbl.NewStream(rec)
+	}
+	conc := "single-message"
+	if len(c.Msgs) >= 2 {
+		conc = "concurrent-messages"
+	}
+	bs, removes, drop, bv := buildMsgs(c.Msgs, c.Modifier)
+	defer func() {
+		for _, rm := range removes {
+			rm()
+		}
+	}()
+	if drop || bv != nil {
+		if stream != nil {
+			stream.Close()
+		}
+		return bv
+	}
+	sink := &failSink{}
+	doLog := func(i int) (io.ReadCloser, error) {
+		m, b := c.Msgs[i], bs[i]
+		switch {
+		case c.Modifier && m.Resp:
+			err := mod.ModifyResponse(b.res)
+			return b.res.Body, err
+		case c.Modifier:
+			err := mod.ModifyRequest(b.req)
+			return b.req.Body, err
+		case m.Resp:
+			err := stream.LogResponse(m.ID, b.res)
+			return b.res.Body, err
+		}
+		err := stream.LogRequest(m.ID, b.req)
+		return b.req.Body, err
+	}
+	var idxs []int
+	for i := range c.Msgs {
+		idxs = append(idxs, i)
+	}
+	if !waitBounded("logging", logGroup(idxs, c.Msgs, bs, doLog, sink)) {
 		return kit.Failf("C19/logging/"+conc+"/logging-did-not-finish", "logging %d messages and reading their bodies did not finish within %v\n%s", len(c.Msgs), 4*kit.T(), kit.GoroutineDump(reMarbl))
 	}
+	fails := sink.verdict()
 
 	// fence: the stream writes frames in the order it accepted them, so once
 	// a frame of a message logged after all the others has reached the writer,
@@ -572,96 +705,7 @@ func runLog(c LogCase) kit.Verdict {
 	}
 	rv, _ := checkReader("C19/stream", all)
 	fails = append(fails, rv...)
-
-	// ---- per message
-	type key struct {
-		mt byte
-		id string
-	}
-	byMsg := map[key][]pframe{}
-	for _, f := range frames {
-		byMsg[key{f.MT, f.ID}] = append(byMsg[key{f.MT, f.ID}], f)
-	}
-	for i, b := range bs {
-		e := b.exp
-		fs := byMsg[key{e.mt, e.id8}]
-		delete(byMsg, key{e.mt, e.id8})
-		got := map[string][]string{}
-		var data []pframe
-		for _, f := range fs {
-			if f.Kind == 1 {
-				got[f.Name] = append(got[f.Name], f.Value)
-			} else {
-				data = append(data, f)
-			}
-		}
-		if ts := got[":timestamp"]; len(ts) == 1 {
-			got[":timestamp"] = []string{""}
-		}
-		if d := diffHeaders(e.headers, got); d != "" {
-			fails.Addf("C19/headers/"+mtName(c.Msgs[i].Resp)+"/header-frames-differ-from-message", "message %d (id %q): %s", i, e.id8, d)
-		}
-		// data frames
-		var cat []byte
-		contiguous := true
-		for k, f := range data {
-			if f.Index != uint32(k) {
-				contiguous = false
-			}
-			cat = append(cat, f.Data...)
-		}
-		if !contiguous {
-			var idx []string
-			for _, f := range data {
-				idx = append(idx, strconv.FormatUint(uint64(f.Index), 10))
-				if len(idx) >= 12 {
-					idx = append(idx, "…")
-					break
-				}
-			}
-			fails.Addf("C19/data/"+e.shape+"/indices-not-contiguous-from-zero", "message %d (id %q): data frame indices in stream order are %s", i, e.id8, strings.Join(idx, ","))
-		}
-		var consumed []byte
-		for _, r := range e.reads {
-			consumed = append(consumed, r.data...)
-		}
-		if !bytes.Equal(cat, consumed) {
-			fails.Addf("C19/data/"+e.shape+"/concatenation-differs-from-bytes-read", "message %d (id %q): %d data frames, %s", i, e.id8, len(data), kit.Diff(consumed, cat))
-		}
-		if len(e.reads) > 0 && len(data) == 0 {
-			fails.Addf("C19/data/"+e.shape+"/no-data-frames", "message %d (id %q): the consumer issued %d reads, the stream has no data frame", i, e.id8, len(e.reads))
-		}
-		if len(data) > 0 {
-			last := data[len(data)-1]
-			if (last.TermRaw == 1) != e.sawEOF || last.TermRaw > 1 {
-				fails.Addf("C19/data/"+e.shape+"/terminal-flag-of-last-frame-wrong", "message %d (id %q): last data frame (index %d) has terminal byte %d, the consumer saw EOF: %v", i, e.id8, last.Index, last.TermRaw, e.sawEOF)
-			}
-			if len(data) == len(e.reads) {
-				for k, f := range data {
-					if (f.TermRaw != 0) != e.reads[k].eof {
-						fails.Addf("C19/data/"+e.shape+"/terminal-flag-differs-from-read-eof", "message %d (id %q): frame %d has terminal byte %d but read %d returned EOF: %v", i, e.id8, k, f.TermRaw, k, e.reads[k].eof)
-						break
-					}
-				}
-			} else if !e.sawEOF {
-				for _, f := range data {
-					if f.TermRaw != 0 {
-						fails.Addf("C19/data/"+e.shape+"/terminal-flag-before-eof", "message %d (id %q): frame %d is terminal, the body never reached EOF", i, e.id8, f.Index)
-						break
-					}
-				}
-			}
-		}
-	}
-	delete(byMsg, key{1, fenceID})
-	if len(byMsg) > 0 {
-		var ks []string
-		for k, fs := range byMsg {
-			ks = append(ks, fmt.Sprintf("type %d id %q (%d frames)", k.mt, k.id, len(fs)))
-		}
-		sort.Strings(ks)
-		fails.Addf("C19/stream/"+conc+"/frames-for-unknown-message", "the stream holds frames that belong to no logged message: %s", strings.Join(ks, "; "))
-	}
+	fails = append(fails, analyse("C19/", conc, frames, c.Msgs, bs, []string{fenceID})...)
 	return fails
 }
 
